@@ -120,7 +120,8 @@ static void run() {
     vp::Rng rng(a.seed * 7001 + a.shard);
     for (size_t ti = 0; ti < ntables && !vp::too_many_failures(); ti++) {
         FamilyOpts big; big.max_areas = 6; big.max_size = 20; big.max_regs = 12;
-        Case c; c.t = (ti % 8 == 7) ? gen_table(rng, big) : gen_table(rng);
+        FamilyOpts wide; wide.huge = 2; wide.many = 2;   // every 40th table: an area beyond 2^16 words with registers behind offset 0x10000, or 32..70 registers
+        Case c; c.t = (ti % 40 == 39) ? gen_table(rng, wide) : (ti % 8 == 7) ? gen_table(rng, big) : gen_table(rng);
         size_t nr = c.t.regs.size();
         // per register: boundary values and random ones through both variants
         for (size_t h = 0; h < nr; h++) {
